@@ -309,8 +309,16 @@ func genAbandonCase(t *rapid.T, cfg PCfg, x *parserExec) (ResetCase, *parserExec
 	if len(text) > x.cc.BufferSize {
 		text = text[:x.cc.BufferSize]
 	}
-	if rapid.Bool().Draw(t, "abResetIn") {
-		x.step(POp{Op: "reset", Data: cloneBytes(text), Cap: rapid.SampledFrom([]int{0, 7, 8, 64}).Draw(t, "abCap0")})
+	// sameSlice: the text comes in with Reset(data) in a slice with a margin
+	// (the parser may adopt it); afterwards the caller refills that very
+	// slice with a text of the same length and hands it over again.
+	sameSlice := rapid.IntRange(0, 3).Draw(t, "abSameSlice") == 0
+	cap0 := rapid.SampledFrom([]int{0, 7, 8, 64}).Draw(t, "abCap0")
+	if sameSlice && cap0 == 0 {
+		cap0 = 8
+	}
+	if sameSlice || rapid.Bool().Draw(t, "abResetIn") {
+		x.step(POp{Op: "reset", Data: cloneBytes(text), Cap: cap0})
 	} else {
 		x.step(POp{Op: "write", Data: cloneBytes(text)})
 	}
@@ -354,11 +362,16 @@ func genAbandonCase(t *rapid.T, cfg PCfg, x *parserExec) (ResetCase, *parserExec
 		b := minInt(len(text), a+rapid.IntRange(3, 12).Draw(t, "abRepLen"))
 		tail = append(tail, text[a:b]...)
 	}
+	if sameSlice {
+		tail = nil
+	}
 	m = append(m, tail...)
 	if len(m) > x.cc.BufferSize {
 		m = m[:x.cc.BufferSize]
 	}
-	if rapid.Bool().Draw(t, "abResetWithData") {
+	if sameSlice {
+		x.step(POp{Op: "reset", Data: m, Cap: cap0, Reuse: true})
+	} else if rapid.Bool().Draw(t, "abResetWithData") {
 		x.step(POp{Op: "reset", Data: m, Cap: rapid.SampledFrom([]int{0, 7, 8, 64}).Draw(t, "abCap"), Reuse: rapid.Bool().Draw(t, "abReuse")})
 	} else {
 		x.step(POp{Op: "reset", Nil: true})
